@@ -315,6 +315,44 @@ func c14Transparent(w *core.Worker, i int) {
 	w.Case(core.Digest("transparent", fmt.Sprint(i)), true)
 }
 
+// c14AfterOverflow: arithmetic whose result does not fit an integer (whatever it evaluates to) between the creation of values and
+// later readings of them: the values created before and after are what they were, under both allocators, and nothing is handed
+// back to the allocator twice.
+func c14AfterOverflow(w *core.Worker, i int) {
+	r := w.Rng(i, "overflow")
+	core.WriteFiles(w.Work, map[string]string{"ov.csv": "a,b\n9223372036854775807,1\n5,6\n-9223372036854775807,-2\n7,8\n4611686018427387904,2\n"})
+	ops := []string{"9223372036854775807 + 1", "9223372036854775807 * 2", "-9223372036854775807 - 2", "9223372036854775807 - (-1)", "4611686018427387904 * 4", "(-9223372036854775807 - 1) / -1", "9223372036854775807 + 9223372036854775807"}
+	for _, mode := range []string{"pool", "poison"} {
+		verifhook.SetPoison(mode == "poison")
+		verifhook.TakeDiscardStats(true)
+		s, err := core.NewSess(core.SessOpts{Dir: w.Work, Quiet: true})
+		if err != nil {
+			verifhook.SetPoison(false)
+			w.Inconclusive(err.Error())
+			return
+		}
+		op := ops[r.Intn(len(ops))]
+		prog := "VAR @d := INTEGER('12'); VAR @x := 0; @x := " + op + "; SELECT " + op + ", " + ops[r.Intn(len(ops))] + "; SELECT a + b, a * b, a - b FROM ov; VAR @e := INTEGER('34'); VAR @f := 10 + 1; SELECT 'after', @d, @e, @f, 20 + 2, INTEGER('56');"
+		res := s.Exec(prog)
+		got := ""
+		for _, v := range res.Views {
+			if len(v.Rows) == 1 && len(v.Rows[0]) == 6 && v.Rows[0][0].S == "after" {
+				got = strings.Join(valsToStrs(v.Rows[0][1:]), " ")
+			}
+		}
+		st := verifhook.TakeDiscardStats(true)
+		s.Close()
+		verifhook.SetPoison(false)
+		if res.Err == nil && got != "I:12 I:34 I:11 I:22 I:56" {
+			w.Violation("value-changed-after-overflowing-arithmetic", fmt.Sprintf("[allocator: %s] after %s the program reads %s, expected 12 34 11 22 56\n%s", mode, op, got, prog), c14Replay{Expr: op, Mode: mode, Stmts: []string{prog}, Detail: got})
+		}
+		if mode == "poison" && len(st.DoubleDiscards) > 0 {
+			w.Violation("double-discard", fmt.Sprintf("%s: an object was discarded twice: %v", op, st.DoubleDiscards[0]), c14Replay{Expr: op, Mode: mode, Stmts: []string{prog}})
+		}
+		w.Count("programs_reading_values_after_overflowing_arithmetic", 1)
+	}
+}
+
 func c14Case(w *core.Worker, i int) {
 	if i < len(c14Names()) {
 		c14Sweep(w, i)
@@ -322,6 +360,9 @@ func c14Case(w *core.Worker, i int) {
 	}
 	if i%9 == 2 {
 		c14Transparent(w, i)
+	}
+	if i%9 == 5 {
+		c14AfterOverflow(w, i)
 	}
 	r := w.Rng(i, "")
 	expr, volatile, args := c14Expr(r, i)
